@@ -255,6 +255,121 @@ func c14(r *report.Run) {
 			}
 		}
 	}
+	// compound forms: the promotion rule applied twice (chains are evaluated left to right, never regrouped), under a
+	// conditional (the value keeps the kind of the branch taken), next to a literal of the same value and another kind,
+	// and against a sum with a literal (the specialised comparisons must agree with the generic one)
+	one, three, zero := ref.Num{K: reflect.Int, U: 1}, ref.Num{K: reflect.Int, U: 3}, ref.Num{K: reflect.Int, U: 0}
+	two, twoF := ref.Num{K: reflect.Int, U: 2}, ref.Num{K: reflect.Float64, F: 2}
+	ar := func(op string, x, y ref.Num) ref.Out { return ref.Arith(op, x, y) }
+	then := func(o ref.Out, f func(ref.Num) ref.Out) ref.Out {
+		if o.Fail || o.IsBool {
+			return ref.Out{Fail: true}
+		}
+		return f(o.N)
+	}
+	type form struct {
+		src  string
+		want func(a, b ref.Num, c bool) ref.Out
+		cond bool
+	}
+	pick := func(a, b ref.Num, c bool) ref.Num {
+		if c {
+			return a
+		}
+		return b
+	}
+	forms := []form{
+		{"a + 1 + 1", func(a, b ref.Num, c bool) ref.Out {
+			return then(ar("+", a, one), func(x ref.Num) ref.Out { return ar("+", x, one) })
+		}, false},
+		{"a * 3 * 3", func(a, b ref.Num, c bool) ref.Out {
+			return then(ar("*", a, three), func(x ref.Num) ref.Out { return ar("*", x, three) })
+		}, false},
+		{"a + b + 1", func(a, b ref.Num, c bool) ref.Out {
+			return then(ar("+", a, b), func(x ref.Num) ref.Out { return ar("+", x, one) })
+		}, false},
+		{"1 + a + b", func(a, b ref.Num, c bool) ref.Out {
+			return then(ar("+", one, a), func(x ref.Num) ref.Out { return ar("+", x, b) })
+		}, false},
+		{"a - 1 - b", func(a, b ref.Num, c bool) ref.Out {
+			return then(ar("-", a, one), func(x ref.Num) ref.Out { return ar("-", x, b) })
+		}, false},
+		{"(c ? a : b) + 1", func(a, b ref.Num, c bool) ref.Out { return ar("+", pick(a, b, c), one) }, true},
+		{"(c ? a : b) * b", func(a, b ref.Num, c bool) ref.Out { return ar("*", pick(a, b, c), b) }, true},
+		{"-(c ? a : b)", func(a, b ref.Num, c bool) ref.Out {
+			x := pick(a, b, c)
+			if ref.KindFloat(x.K) {
+				return ref.Out{N: ref.Num{K: x.K, F: -x.F}}
+			}
+			return ref.Out{N: ref.Num{K: x.K, U: ref.Wrap(x.K, -x.U)}}
+		}, true},
+		{"(c ? a : b) == a", func(a, b ref.Num, c bool) ref.Out { return ar("==", pick(a, b, c), a) }, true},
+		{"(c ? a : b) < b", func(a, b ref.Num, c bool) ref.Out { return ar("<", pick(a, b, c), b) }, true},
+		{"(c ? a : 1) == 1", func(a, b ref.Num, c bool) ref.Out { return ar("==", pick(a, one, c), one) }, true},
+		{"a == b + 0", func(a, b ref.Num, c bool) ref.Out {
+			return then(ar("+", b, zero), func(x ref.Num) ref.Out { return ar("==", a, x) })
+		}, false},
+		{"a == b * 1", func(a, b ref.Num, c bool) ref.Out {
+			return then(ar("*", b, one), func(x ref.Num) ref.Out { return ar("==", a, x) })
+		}, false},
+		{"1 == b * 1", func(a, b ref.Num, c bool) ref.Out {
+			return then(ar("*", b, one), func(x ref.Num) ref.Out { return ar("==", one, x) })
+		}, false},
+		{"a != b + 0", func(a, b ref.Num, c bool) ref.Out {
+			return then(ar("+", b, zero), func(x ref.Num) ref.Out { return ar("!=", a, x) })
+		}, false},
+		{"a * 2 + b * 2.0", func(a, b ref.Num, c bool) ref.Out {
+			return then(ar("*", a, two), func(x ref.Num) ref.Out {
+				return then(ar("*", b, twoF), func(y ref.Num) ref.Out { return ar("+", x, y) })
+			})
+		}, false},
+		{"b * 2.0 - a * 2", func(a, b ref.Num, c bool) ref.Out {
+			return then(ar("*", b, twoF), func(x ref.Num) ref.Out {
+				return then(ar("*", a, two), func(y ref.Num) ref.Out { return ar("-", x, y) })
+			})
+		}, false},
+	}
+	for _, ka := range ref.Kinds {
+		ga := c14Grid(ka)
+		for _, kb := range ref.Kinds {
+			gb := c14Grid(kb)
+			sample := map[string]interface{}{"a": ga[0].GoValue(), "b": gb[0].GoValue(), "c": true}
+			for _, f := range forms {
+				wit := fmt.Sprintf("%s with a %s, b %s", f.src, ka, kb)
+				for _, mode := range []string{"typed", "untyped"} {
+					var prog *vm.Program
+					var err error
+					var pt reflect.Type
+					if mode == "typed" {
+						prog, err = expr.Compile(f.src, expr.Env(sample))
+						if tree, perr := parser.Parse(f.src); perr == nil && (!f.cond || ka == kb || f.src == "-(c ? a : b)") {
+							// the checker's prediction is compared only where every operand is statically typed: a
+							// conditional with branches of different kinds is dynamically typed
+							pt, _ = checker.Check(tree, conf.New(sample))
+						}
+					} else {
+						prog, err = expr.Compile(f.src)
+					}
+					progs++
+					if err != nil {
+						order++
+						r.Report(report.Violation{Sub: mode, Kind: "rejected", Witness: wit, Order: order, Detail: map[string]interface{}{"source": f.src, "error": err.Error()}})
+						continue
+					}
+					for _, a := range ga {
+						for _, b := range gb {
+							for _, c := range []bool{true, false} {
+								if !f.cond && !c {
+									continue
+								}
+								check(mode, f.src, prog, map[string]interface{}{"a": a.GoValue(), "b": b.GoValue(), "c": c}, f.want(a, b, c), pt, wit, fmt.Sprintf("%s, %s, c=%v", a, b, c))
+							}
+						}
+					}
+				}
+			}
+		}
+	}
 	r.Sample(map[string]interface{}{"source": "a / b", "a": "int8(-128)", "b": "uint16(65535)", "expected": ref.Arith("/", ref.Num{K: reflect.Int8, U: ref.Wrap(reflect.Int8, 0x80)}, ref.Num{K: reflect.Uint16, U: 65535}).String()})
 	r.Sample(map[string]interface{}{"source": "a < b", "a": "uint8(200)", "b": "int8(-1)", "expected": ref.Arith("<", ref.Num{K: reflect.Uint8, U: 200}, ref.Num{K: reflect.Int8, U: ref.Wrap(reflect.Int8, 0xff)}).String()})
 	r.Set("evaluations", evals)
